@@ -171,6 +171,9 @@ def selftest(sc, topo, behs, c, checked):
             k0 = sorted(e["st"]["data"])[0]
             e["st"]["data"][k0] += 1
             comp = "data"
+        elif "reqs" in checked and "cbf" not in checked:
+            e["st"]["nid"] += 1
+            comp = "reqs"
         elif "ucs" in checked:
             e["st"]["ucs"] = e["st"]["ucs"] + [{"e": "2", "actor": "EV", "name": "ucZ", "ver": "9", "av": True, "sc": "1"}]
             comp = "ucs"
@@ -200,6 +203,16 @@ def selftest(sc, topo, behs, c, checked):
 def run(prop, tier, seed, P, replay=None):
     """P: property profile (dict). Returns exit code."""
     t0 = time.time()
+    r = execute(prop, tier, seed, P, replay)
+    if replay:
+        return r
+    write_evidence(prop, tier, seed, "model_checking", r["cov"], P["assumptions"], time.time() - t0, r["viol"])
+    return 1 if r["viol"] else 0
+
+
+def execute(prop, tier, seed, P, replay=None, clear=True):
+    """Runs the SpineCore pipeline for a profile; prints VIOLATION / KNOWN-FINDING lines; returns {"viol", "cov"} (or an exit code for a replay)."""
+    t0 = time.time()
     build_harness()
     sc = Scratch()
     try:
@@ -217,7 +230,8 @@ def run(prop, tier, seed, P, replay=None):
                 print("replay: every step accepted by the specification")
             return 1 if bad else 0
         T = P[tier]
-        clear_replays(prop)
+        if clear:
+            clear_replays(prop)
         # 1. design-level exhaustive check
         mcs = []
         for m in T["mc"]:
@@ -281,8 +295,7 @@ def run(prop, tier, seed, P, replay=None):
                "checked_components": checked, "bad_steps": len(bad), "deviations_used": {k: v["n"] for k, v in devs.items()},
                "binding_selftest": st_res,
                "checker_cmd": "tlc CoreMC.tla (INVARIANTS InvTypeOK InvOneBinding InvWellFormed InvNoDangling, PROPERTY StepProperty); tlc CoreTrace.tla (monitor)"}
-        write_evidence(prop, tier, seed, "model_checking", cov, P["assumptions"], time.time() - t0, viol)
         log("[%s] %s: %d steps on the code, %d trace lines validated, %d bad, %.1fs" % (prop, tier, nsteps, lines, len(bad), time.time() - t0))
-        return 1 if viol else 0
+        return {"viol": viol, "cov": cov}
     finally:
         sc.close()
